@@ -695,3 +695,8 @@ def check(L, tier, log, samples):
     s1["witness"].update(s2["witness"])
     s1["functions"] = sorted(set(s1["functions"]) | set(s2["functions"]))
     return v1 + v2, s1
+
+
+# native scenarios that exercise, against the real build, the behaviours this spec decides: on a tree where the spec finds no
+# violation every one of them must NOT reproduce (a scenario that reproduces there means the spec misses something)
+SCENARIOS = [('c03_empty_data', []), ('c03_frame_after_trailers', [])]
